@@ -198,6 +198,8 @@ def cases(rng, tier):
         d["k"] = "splitnote"
         d["which"] = rng.randint(0, 50)
         yield d
+    for i in range(1200 if thorough else 50):
+        yield gen_tuplet_part(rng)
     # (a) estimator
     if thorough:
         for div in range(1, 961):
@@ -346,6 +348,39 @@ def gen_part(rng):
             slurs.append([plain[a]["key"], plain[b]["key"]])
     return {"k": "part", "divs": divs, "qd": qd, "ts": ts, "meas": meas, "notes": notes, "slurs": slurs, "end": L,
             "mode": mode, "measurewise": rng.random() < 0.7}
+
+
+def gen_tuplet_part(rng):
+    """runs of equal-duration notes that start where the previous one ended (what find_tuplets looks for), read through a
+    Note subclass without estimated symbolic duration"""
+    d = gen_part(rng)
+    d["k"] = "tuplets"
+    q = d["divs"]
+    cands = sorted(set(x for x in [q // 3, 2 * q // 3, q // 6, q // 5, 2 * q // 5, q // 7, q // 12, 4 * q // 3, 5 * q // 12, 16 * q // 3,
+                                   q // 2, q, q // 4, 8 * q // 3, 10, 2, 1, 3, 6] if x >= 1))
+    notes, nid = [], 0
+    pos = d["ts"][0][0] if d["ts"] else 0
+    end = max(d["end"], pos + 1)
+    while pos < end and len(notes) < 36:
+        r = rng.choice([1, 2, 3, 3, 3, 4, 5, 5, 6, 7, 9, 10, 12])
+        dd = rng.choice(cands)
+        for _ in range(r):
+            if pos >= end or len(notes) >= 36:
+                break
+            notes.append({"id": "n%d" % nid, "key": nid, "t": pos, "dur": dd, "kind": "note", "step": rng.choice(STEPS), "alter": 0,
+                          "oct": 4, "voice": 1, "staff": 1})
+            nid += 1
+            if rng.random() < 0.04:   # a chord note: starts where its neighbour starts, not where it ends
+                notes.append({"id": "n%d" % nid, "key": nid, "t": pos, "dur": dd, "kind": "note", "step": rng.choice(STEPS), "alter": 0,
+                              "oct": 5, "voice": 1, "staff": 1})
+                nid += 1
+            pos += dd
+        if rng.random() < 0.3:
+            pos += rng.randint(1, max(1, q))
+    d["notes"] = notes
+    d["slurs"] = []
+    d["end"] = max(d["end"], pos)
+    return d
 
 
 # ---------------------------------------------------------------------------------------------- building / observing parts
@@ -930,6 +965,47 @@ def eval_splitnote(d, ev):
     return len(splits) >= 1
 
 
+def eval_tuplets(d, ev):
+    """steps 2-3 of find_tuplets, reached through a Note subclass that may have no symbolic duration (for the notes of
+    the library step 1 finds no candidate: the `tupc` observation of eval_part)"""
+    import partitura.score as S
+    import partitura.utils.music as M
+
+    d = json.loads(json.dumps(d))
+    cls = loose_note_class()
+    part, slurs = build(d, note_cls=cls)
+    if part.first_point is None:
+        return False
+    _, exc = call(S.add_measures, part)
+    if exc is not None:
+        return False
+    snd0 = sounding_cls(part, cls)
+    nreq, ns = notes_req(part, {}, cls)
+    ev.requests.append("tupl %s %s" % (header(part), nreq))
+    _, exc = call(S.find_tuplets, part)
+    if exc is not None:
+        ev.impl.append("err:" + type(exc).__name__)
+        ev.oracle.append("find_tuplets/raises: %r" % (exc,))
+        return False
+    tups = list(part.iter_all(S.Tuplet))
+    ev.impl.append(W.f_tuple(W.f_list(lambda n: "N" if n._sym_dur is None else fmt_est(n._sym_dur), ns),
+                             W.f_list(lambda t: W.f_tuple(ref(t.start_note), ref(t.end_note)), tups)))
+    snd = sounding_cls(part, cls)
+    if snd != snd0:
+        ev.oracle.append("find_tuplets/note-array: changed from %s to %s" % (snd0, snd))
+    wrong = 0
+    for n in ns:
+        sd = n._sym_dur
+        if sd:
+            x = numeric_exact(sd)
+            if x is None or x * n.start.quarter != n.end.t - n.start.t:
+                wrong += 1
+    # (labels that do not last as long as their note are possible on this hypothetical class - Props/C11Tuplets.lean
+    #  `tuplet_relabels_guess` - and are counted, not judged: the library's own notes never reach this code)
+    ev.info = {"tuplets": len(tups), "tuplet_labels_wrong": wrong}
+    return len(tups) > 0
+
+
 def sounding_cls(part, cls):
     import partitura.score as S
 
@@ -973,6 +1049,8 @@ def evaluate(d):
         nontrivial = eval_part(d, ev)
     elif k == "splitnote":
         nontrivial = eval_splitnote(d, ev)
+    elif k == "tuplets":
+        nontrivial = eval_tuplets(d, ev)
     ev.key = ("|".join(ev.requests)[:2000] or repr(d)) if nontrivial else None
     return ev
 
@@ -988,7 +1066,7 @@ def shrink(d):
     if d.get("k") == "estr":
         for x in range(d["lo"], d["hi"]):
             yield {"k": "estl", "div": d["div"], "com": False, "durs": [x]}
-    if d.get("k") in ("part", "splitnote"):
+    if d.get("k") in ("part", "splitnote", "tuplets"):
         ns = d["notes"]
         for i in range(len(ns)):
             key = ns[i].get("key")
@@ -1024,6 +1102,8 @@ def distribution(descs, results):
         "notes_created_by_tie_notes": sum((r.get("info") or {}).get("split", 0) for _, r in parts),
         "fill_rests_raised": dict(Counter(str((r.get("info") or {}).get("fill_rests_raised")) for _, r in parts)),
         "rests_added": sum((r.get("info") or {}).get("rests_added", 0) for _, r in parts),
+        "tuplets_found_through_subclass": sum((r.get("info") or {}).get("tuplets", 0) for r in results),
+        "tuplet_labels_not_lasting_their_note": sum((r.get("info") or {}).get("tuplet_labels_wrong", 0) for r in results),
         "fill_mode": dict(Counter(str((r.get("info") or {}).get("fill_mode")) for _, r in parts)),
         "rests_with_non_integral_time": sum((r.get("info") or {}).get("composite_rests", 0) for _, r in parts),
     }
